@@ -93,6 +93,10 @@ def null_stripped(ctx, fi, paths, rule="C08.R4"):
         cs = c[2] if c[0] == "bool" and c[1] == "and" else (c,)
         ok = any(x[0] == "cmp" and x[1] == "==" and pad in x[2:] and any(y[0] == "sub" and y[2][0] == "slice" for y in x[2:]) for x in cs)
         ctx.ob(rule, fi, ok, "the strip loop continues only while the unit before the end index equals the pad", key="loop condition")
+        bound = [x for x in cs if x[0] == "cmp" and x[1] in (">=", ">") and N.is_int(x[3])]
+        okb = bool(bound) and all((x[1] == ">=" and x[3] == N.const(0)) or (x[1] == ">" and x[3] == N.const(-1)) for x in bound)
+        ctx.ob(rule, fi, okb, "the strip loop may shorten the data down to nothing (end - unit >= 0): a region that is all padding becomes empty", key="loop bound")
+        n += 1
         n += 1
     return n
 
@@ -217,7 +221,7 @@ def run(ctx):
     ctx.floor("C08.R1", 30)
     ctx.floor("C08.R2", 12)
     ctx.floor("C08.R3", 12)
-    ctx.floor("C08.R4", 6)
+    ctx.floor("C08.R4", 8)
     from . import C04
     C04.shared_obligations(ctx, "C08.R5", {"Prefixed", "FixedSized", "NullTerminated", "NullStripped", "OffsettedEnd", "ProcessXor"})
     ctx.floor("C08.R5", 4)
